@@ -1,5 +1,6 @@
 """C18 -- JSON round trips preserve specifications, rules, packs, strategies, bijections.
 Rules J1-J5 (engine J)."""
+from ..engines import closure as G
 from ..engines import jsonpairs as J
 
 
@@ -20,6 +21,11 @@ def run(ctx):
     J.j5_bijection_maps(ctx)
     J.j6_all_rules_written(ctx)
     J.j7_positional_settings(ctx)
+    J.j8_container_normalisation(ctx)
+    # the rules a specification adds to itself on demand are dumped with the rest
+    G.g6_lazy_empty_rule(ctx)
+    ctx.floor("G6", 3)
+    ctx.floor("J8", 5)
     ctx.floor("J7", 1)
     ctx.floor("J6", 2)
     ctx.floor("J1", 14)
